@@ -90,7 +90,7 @@ contract(
     params={},
     assumed=True, verify=False,
     bounded=("bounded/tree_listing.py", 300, 5000),
-    props=["C03"],
+    props=["C03", "C20"],
     doc="[bounded only] listing clauses outside the verifier's reach (pygtrie, json, sorted): order/metadata independence of the "
         "identifier, injectivity on neighbouring sets, from_list/as_list/load round trips, sub-tree extraction for every prefix",
 )
